@@ -118,6 +118,9 @@ def compare(lead: bytes, sent: list[bytes], spec, ctx) -> None:
     if exc is not None:
         ctx.violation(f"C05:read-raised:{p1_mon.where(exc)}", f"read() raised {exc!r} at chunk {at} of a clean stream", case)
         return
+    if any(o.get("poison") for o in obs):
+        ctx.violation("C05:returned-list-shared-between-calls", "read() handed back an object that the caller had appended to the list returned by an earlier call", case)
+        return
     got = [o["bytes"] for o in obs]
     if got != sent:
         if len(got) < len(sent):
